@@ -99,7 +99,8 @@ def gen_expr(rng, big=False):
             for _ in range(rng.choice([1, 1, 2, 3])):
                 lo = rng.choice([0, 1, 2, 3, 4, 5, 8, 9, 10, 98, 99]) if not big else rng.choice([33554430, 33554431, 33554432])
                 hi = lo + rng.choice([0, 0, 1, 2, 3, 5])
-                w = len(str(lo)) + rng.choice([0, 0, 0, 1, 2])
+                # zero-padded widths, now and then beyond the 20 digits of an unsigned long (name buffers sized by width)
+                w = len(str(lo)) + (rng.choice([0, 0, 0, 1, 2]) if rng.random() < 0.94 else rng.choice([19, 21, 24, 30]))
                 los = str(lo).zfill(w)
                 rs.append(los + ("-%d" % hi if hi > lo or rng.random() < 0.3 else ""))
                 hs += [str(v).zfill(w) for v in range(lo, hi + 1)]
